@@ -392,8 +392,75 @@ let lz a =
     show_typed (lazy_read_hdr v44 strings contigs (ik_of h) (fk_of h) (z_of_int (int_of_string a.(5))) (bytes_of_hex a.(6)))
   | _ -> Some "HeaderErr"
 
+(* ---- `bf` / `bfx`: whole BCF streams (NV.Bcf.File); header arguments as `vb` + ALT ids + other
+   records; parsing and printing only ---- *)
+let hnum_of s = match s with
+  | "A" -> HA | "R" -> HR | "G" -> HG | "." -> HDot
+  | _ -> HCount (n_of_int (int_of_string s))
+let hty_of s = match s with
+  | "I" -> HInteger | "F" -> HFloat | "B" -> HFlag | "C" -> HCharacter | "S" -> HString
+  | _ -> failwith "type"
+let vheader_of a : vheader =
+  let idxn i = if i = "-" then None else Some (n_of_int (int_of_string i)) in
+  let defs s = if s = "-" then [] else
+    List.map (fun d -> match split_on '/' d with [k; n; t; i] -> (k, n, t, i) | _ -> failwith "def") (split_on ',' s) in
+  let pairs s = if s = "-" then [] else
+    List.map (fun d -> match split_on '/' d with [k; i] -> (k, i) | _ -> failwith "pair") (split_on ',' s) in
+  let mk id num ty desc idx =
+    { m_id = ascii id; m_num = num; m_ty = ty; m_desc = desc; m_len = None; m_md5 = None; m_url = None;
+      m_idx = idx; m_others = [] } in
+  let d = Some (ascii "d") in
+  let dmap (k, n, t, i) = mk k (Some (hnum_of n)) (Some (hty_of t)) d (idxn i) in
+  let ff = (match split_on '.' a.(0) with
+    | [x; y] -> (n_of_int (int_of_string x), n_of_int (int_of_string y)) | _ -> failwith "ver") in
+  { hh_ff = ff;
+    hh_infos = List.map dmap (defs a.(1));
+    hh_filters = List.map (fun (k, i) -> mk k None None d (idxn i)) (pairs a.(2));
+    hh_formats = List.map dmap (defs a.(3));
+    hh_alts = (if a.(6) = "-" then [] else List.map (fun k -> mk k None None d None) (split_on ',' a.(6)));
+    hh_contigs = List.map (fun (k, i) -> mk k None None None (idxn i)) (pairs a.(4));
+    hh_others = (if a.(7) = "-" then [] else
+      List.map (fun t -> match split_on ':' t with
+        | [k; v] -> (ascii k, CU [bytes_of_hex v]) | _ -> failwith "other") (split_on ',' a.(7)));
+    hh_samples = List.init (int_of_string a.(5)) (fun i -> ascii ("s" ^ string_of_int i)) }
+let look m names =
+  let seen = ref [] in
+  let items = List.filter_map (fun n ->
+    if List.mem n !seen then None else begin
+      seen := n :: !seen;
+      Some (hex_of_bytes n ^ "=" ^ (match get_index_of m n with
+        | Some i -> string_of_int (int_of_nat i) ^ ":" ^ (match get_index m i with Some e -> hex_of_bytes e | None -> "-")
+        | None -> "-"))
+    end) names in
+  "{" ^ String.concat "," items ^ "}"
+let hdr_obs (h : vheader) strings contigs =
+  let text = (match write_header h with Some ls -> hex_of_bytes (with_lf ls) | None -> "WErr") in
+  let ids l = List.map (fun m -> m.m_id) l in
+  text ^ ";S" ^ look strings (pASS :: ids h.hh_infos @ ids h.hh_filters @ ids h.hh_formats)
+  ^ ";C" ^ look contigs (ids h.hh_contigs)
+let fend_str = function EndEof -> "Eof" | EndErr -> "Err" | EndFuel -> "Fuel"
+let read_obs bs =
+  let maps = (match read_prefix bs with FOk (((_, s), c), _) -> Some (s, c) | _ -> None) in
+  let one f = (match f bs, maps with
+    | FEof, _ -> "Err:UnexpectedEof"
+    | FData, _ -> "Err:InvalidData"
+    | FOk (h, (rs, e)), Some (s, c) ->
+        hdr_obs h s c ^ ";R=" ^ String.concat "!!" (List.map rec_str rs) ^ ";" ^ fend_str e
+    | FOk _, None -> "Inconsistent") in
+  "E=" ^ one bcf_read_file ^ "|L=" ^ one bcf_read_file_lazy
+let bf a =
+  let h = vheader_of a in
+  let rs = if a.(8) = "-" then [] else
+    List.map (fun t -> match split_on '^' t with
+      | [r; l] -> (z_of_dec l, rec_of r) | _ -> failwith "rec^rlen") (split_on '@' a.(8)) in
+  match wres (bcf_write_file h rs) with
+  | Some bs, wh -> Some (wh ^ "|" ^ read_obs bs)
+  | None, wh -> Some (wh ^ "|-")
+
 let handle kind a =
   match kind with
+  | "bf" -> bf a
+  | "bfx" -> Some (read_obs (bytes_of_hex a.(1)))
   | "vb" -> vb a
   | "hd" -> hd a
   | "sm" -> let d = sm_both (sm_lines a.(0)) (sm_lines a.(1)) in Some ("W=" ^ d ^ "|R=" ^ d)
